@@ -543,10 +543,12 @@ impl<'a> Gen<'a> {
                 match self.var_of(&Ty::Int) {
                     Some(v) => {
                         let lit = 1 + self.rng.below(9);
-                        match self.rng.below(4) {
+                        match self.rng.below(6) {
                             0 => format!("({} + {})", v, lit),
                             1 => format!("({} - {})", v, lit),
                             2 => format!("({} + {})", lit, v),
+                            3 => format!("(-{})", v),
+                            4 => format!("(({} % 1000) * {})", v, lit),
                             _ => format!("({} % {})", v, lit),
                         }
                     }
@@ -573,7 +575,7 @@ impl<'a> Gen<'a> {
         match self.rng.below(9) {
             0 | 1 => {
                 let (a, b) = (self.expr(&Ty::Float, d), self.expr(&Ty::Float, d));
-                let op = *self.rng.pick(&["+", "-", "*", "/"]);
+                let op = *self.rng.pick(&["+", "-", "*", "/", "%"]);
                 format!("({} {} {})", a, op, b)
             }
             2 => {
@@ -621,7 +623,7 @@ impl<'a> Gen<'a> {
             }
             3 => {
                 let (a, b) = (self.expr(&Ty::Str, d), self.expr(&Ty::Str, d));
-                let op = *self.rng.pick(&["==", "!=", "<", ">"]);
+                let op = *self.rng.pick(&["==", "!=", "<", ">", "<=", ">="]);
                 format!("({} {} {})", a, op, b)
             }
             4 => {
